@@ -21,6 +21,8 @@ from ..tlc import MachineryError, read_emitted, run_tlc, workdir
 
 DATA = {"x": [1.0, 2.0, 3.0], "z": [4.0, 5.0, 6.0], "I": [50.0, 60.0, 70.0], "q": [2.0, 2.0, 5.0]}
 COLNAME = {"x": "x", "z": "z", "I": "I", "q": "x y"}
+# "q" stands for any column whose name must be quoted: with a blank, a python keyword, a leading digit, a python constant
+QSPELLINGS = ["x y", "class", "1a", "None"]
 BYKEY = {}
 
 
@@ -32,7 +34,7 @@ def ctx_for(names):
         elif n == "z":
             c["z"] = numpy.array([7.0, 8.0, 9.0])
         elif n == "q":
-            c["x y"] = numpy.array([11.0, 12.0, 13.0])
+            c[COLNAME["q"]] = numpy.array([11.0, 12.0, 13.0])
         elif n == "I":
             c["I"] = lambda v: v + 1000
     return c
@@ -89,15 +91,29 @@ def observe(formula, data_names, ctx_names, cform="dict"):
 def expected_of(case):
     if not case["ok"]:
         return {"ok": False}
-    return {"ok": True, "names": [c["name"].replace("q", "x y") if c["name"] in ("q", "q:x") else c["name"] for c in case["columns"]],
+    return {"ok": True, "names": [(c["name"].replace("q", COLNAME["q"]) if c["name"] in ("q", "q:x") else c["name"]).replace("x y", COLNAME["q"]) for c in case["columns"]],
             "cells": [[float(v) for v in c["vals"]] for c in case["columns"]], "sources": dict(case["sources"]),
             "required_after": sorted(case["required_after"])}
 
 
 def replay_resolve(case):
+    if "`x y`" not in case["formula"]:
+        return _replay_resolve(case, case["formula"])
+    bad, n = [], 0
+    for sp in QSPELLINGS:
+        COLNAME["q"] = sp
+        try:
+            b, k = _replay_resolve(case, case["formula"].replace("`x y`", "`" + sp + "`"))
+        finally:
+            COLNAME["q"] = "x y"
+        bad += b
+        n += k
+    return bad, n
+
+
+def _replay_resolve(case, formula):
     from formulaic import Formula
 
-    formula = case["formula"]
     base = {"formula": formula, "data": case["data"], "context": case["context"], "context_form": case["cform"]}
     bad = []
     if formula == "0 + I + x" and "I" not in case["data"]:
@@ -127,7 +143,7 @@ def replay_resolve(case):
                 bad.append({**base, "why": f"{what}: variables_by_source[{src}]", "observed": obs["by_source"], "expected": inv})
 
     try:
-        req = sorted({"q" if str(v) == "x y" else str(v) for v in Formula(formula).required_variables})
+        req = sorted({"q" if str(v) == COLNAME["q"] else str(v) for v in Formula(formula).required_variables})
     except Exception as e:  # noqa
         req = "EXC:" + type(e).__name__
     if req != sorted(case["required_before"]):
@@ -143,7 +159,7 @@ def replay_resolve(case):
     elif case["ok"]:
         # sufficiency: data restricted to exactly the required columns
         keep = [d for d in case["data"] if d in case["required_before"]]
-        e2 = expected_of(BYKEY[(tuple(keep), tuple(case["context"]), formula, case["cform"])])
+        e2 = expected_of(BYKEY[(tuple(keep), tuple(case["context"]), case["formula"], case["cform"])])
         cmp("sufficiency (data restricted to the required variables)", observe(formula, keep, case["context"], case["cform"]), e2)
         if not e2["ok"]:
             bad.append({**base, "why": "model: restriction fails"})
@@ -151,7 +167,7 @@ def replay_resolve(case):
         # necessity: remove each required data column
         for v in [d for d in case["data"] if d in case["required_before"]]:
             less = [d for d in case["data"] if d != v]
-            cmp(f"necessity (column {COLNAME[v]!r} removed)", observe(formula, less, case["context"], case["cform"]), expected_of(BYKEY[(tuple(less), tuple(case["context"]), formula, case["cform"])]))
+            cmp(f"necessity (column {COLNAME[v]!r} removed)", observe(formula, less, case["context"], case["cform"]), expected_of(BYKEY[(tuple(less), tuple(case["context"]), case["formula"], case["cform"])]))
             n += 1
     return bad, n
 
